@@ -140,6 +140,16 @@ def direct_density(f, text):
     if f.density is not None and f.density > 0:
         if not rel(f.natural_density / f.density, want, 1e-12):
             fail("C12:natural-density-ratio", "%s: natural_density/density = %r, mass ratio %r" % (text, f.natural_density / f.density, want), text)
+    # the keywords applied to an existing Formula object (whatever density it already has)
+    for kwname in ("natural_density", "density"):
+        xk = density_value()
+        gk = attempt(lambda: formula(f, **{kwname: xk}))
+        if isinstance(gk, Exception) or not rel(getattr(gk, kwname), xk, 1e-13) or \
+                not rel(gk.natural_density / gk.density, want, 1e-12):
+            fail("C12:keyword-on-formula-object:" + kwname,
+                 "formula(f, %s=%r) for f = %s gives density %r, natural_density %r" % (
+                     kwname, xk, text, getattr(gk, "density", gk), getattr(gk, "natural_density", None)), text)
+            break
     # setting one and reading the other inverts (on a copy)
     g = formula(f)
     x = density_value()
